@@ -823,3 +823,106 @@ Proof.
   intros H Hd Hp H1 H2. destruct (compute_prices_days v _ _ _ H) as [_ Hn].
   rewrite (Hn _ _ H1), (Hn _ _ H2). apply (prices_carried_forward v ds k d Hd Hp).
 Qed.
+
+(* ------------------------------------------------------------ a held position has a price *)
+Section Held.
+  Variables (v : commodity) (a : account) (c : commodity).
+  Hypothesis Ha : account_ok a = true.
+  Hypothesis HAL : is_AL a = true.
+  Hypothesis Hcv : c <> v.
+
+  (* revaluation succeeded: every open non-V asset/liability position has both prices *)
+  Lemma adj_requires_price date prev cur pos : forall ts,
+    val_adjustments v date prev cur pos = ROk ts ->
+    forall k a' c' q, In (k, (a', c', q)) pos -> is_AL a' = true -> c' <> v -> is_zero q = false ->
+    (exists pp, np_price_opt prev c' = Some pp) /\ (exists cp, np_price_opt cur c' = Some cp).
+  Proof.
+    induction pos as [|[k0 [[a0 c0] q0]] rest IH]; intros ts H k a' c' q Hin HAL' Hc' Hq; [destruct Hin|].
+    cbn [val_adjustments] in H. destruct Hin as [E|Hin].
+    - injection E as -> -> -> ->. rewrite HAL', Hq, (str_eqb_neq c' v Hc') in H. cbn [negb orb] in H.
+      destruct (np_price_opt prev c') as [pp|]; [|discriminate].
+      destruct (np_price_opt cur c') as [cp|]; [|discriminate].
+      split; eexists; reflexivity.
+    - destruct (str_eqb c0 v || negb (is_AL a0) || is_zero q0); [exact (IH _ H _ _ _ _ Hin HAL' Hc' Hq)|].
+      destruct (np_price_opt prev c0); [|discriminate]. destruct (np_price_opt cur c0); [|discriminate].
+      destruct (is_zero (sub d0 d)); [exact (IH _ H _ _ _ _ Hin HAL' Hc' Hq)|].
+      destruct (val_adjustments v date prev cur rest) as [ts'| |]; cbn [rbind] in H; try discriminate.
+      exact (IH _ eq_refl _ _ _ _ Hin HAL' Hc' Hq).
+  Qed.
+
+  Definition hp (s : val_state) : Prop :=
+    is_zero (getd (v_qty s) a c) = false -> exists pr, np_price_opt (v_cur s) c = Some pr.
+
+  Lemma val_posting_hp s t p s' p' :
+    val_posting v s t p = ROk (s', p') -> account_ok (p_acc p) = true -> hp s -> hp s'.
+  Proof.
+    intros H Hok Hhp. pose proof (val_posting_cur _ _ _ _ _ _ H) as Ecur.
+    unfold val_posting in H. destruct (is_zero (p_qty p)) eqn:Ez; [injection H as <- <-; exact Hhp|].
+    destruct (cellb a c p) eqn:Ec.
+    - unfold cellb in Ec. apply andb_true_iff in Ec. destruct Ec as [_ Ec]. apply str_eqb_eq in Ec.
+      assert (Ev : str_eqb v (p_com p) = false) by (apply str_eqb_neq; congruence).
+      rewrite Ev in H. intros _. rewrite Ecur.
+      destruct (v_cur s) as [n|]; [|discriminate]. unfold np_valuate in H.
+      destruct (sm_get n (p_com p)) as [pr|] eqn:Ep; [|discriminate].
+      exists pr. cbn [np_price_opt]. unfold np_price. rewrite <- Ec. exact Ep.
+    - assert (Eq : getd (v_qty s') a c = getd (v_qty s) a c).
+      { assert (E1 : v_qty s' = v_qty (if is_AL (p_acc p)
+                        then mkVal (v_prev s) (v_cur s) (pos_add (v_qty s) (p_acc p) (p_com p) (p_qty p)) else s)).
+        { destruct (str_eqb v (p_com p)); [injection H as <- _; reflexivity|].
+          destruct (v_cur s) as [n|]; [|discriminate]. destruct (np_valuate n (p_com p) (p_qty p)); [|discriminate].
+          injection H as <- _. reflexivity. }
+        rewrite E1. destruct (is_AL (p_acc p)); [|reflexivity]. cbn [v_qty]. unfold pos_add.
+        apply getd_put_other. intros K. symmetry in K. apply (key_match a c Ha _ _ Hok) in K.
+        unfold cellb in Ec. congruence. }
+      unfold hp. rewrite Eq, Ecur. exact Hhp.
+  Qed.
+
+  Lemma fold_postings_hp t ps : forall s s' ps',
+    fold_postings (val_posting v) t s ps = ROk (s', ps') ->
+    Forall (fun p => account_ok (p_acc p) = true) ps -> hp s -> hp s' /\ v_cur s' = v_cur s.
+  Proof.
+    induction ps as [|p ps IH]; intros s s' ps' H Hok Hhp; cbn [fold_postings] in H.
+    - injection H as <- _. split; [exact Hhp|reflexivity].
+    - inversion Hok as [|? ? Hp Hrest]; subst.
+      destruct (val_posting v s t p) as [[s1 p1]| |] eqn:E1; cbn [rbind fst snd] in H; try discriminate.
+      destruct (fold_postings (val_posting v) t s1 ps) as [[s2 ps2]| |] eqn:E2; cbn [rbind fst snd] in H; try discriminate.
+      injection H as <- _. destruct (IH _ _ _ E2 Hrest (val_posting_hp _ _ _ _ _ E1 Hp Hhp)) as [X Y].
+      split; [exact X|]. rewrite Y. exact (val_posting_cur _ _ _ _ _ _ E1).
+  Qed.
+
+  Lemma fold_txns_hp ts : forall s s' ts',
+    fold_txns (valuate_proc v) s ts = ROk (s', ts') ->
+    Forall (fun t => Forall (fun p => account_ok (p_acc p) = true) (t_postings t)) ts -> hp s -> hp s' /\ v_cur s' = v_cur s.
+  Proof.
+    induction ts as [|t ts IH]; intros s s' ts' H Hok Hhp; cbn [fold_txns] in H.
+    - injection H as <- _. split; [exact Hhp|reflexivity].
+    - inversion Hok as [|? ? Ht Hrest]; subst. cbn [valuate_proc pr_txn pr_posting rbind] in H.
+      destruct (fold_postings (val_posting v) t s (t_postings t)) as [[s1 ps1]| |] eqn:E1; cbn [rbind fst snd] in H; try discriminate.
+      destruct (fold_txns (valuate_proc v) s1 ts) as [[s2 ts2]| |] eqn:E2; cbn [rbind fst snd] in H; try discriminate.
+      injection H as <- _. destruct (fold_postings_hp _ _ _ _ _ E1 Ht Hhp) as [X1 Y1].
+      destruct (IH _ _ _ E2 Hrest X1) as [X Y]. split; [exact X|congruence].
+  Qed.
+
+  (* after a day that the stage accepted, a non-zero position of the cell has a price that day *)
+  Lemma day_held_has_price s d s' d' :
+    process_day (valuate_proc v) s d = ROk (s', d') ->
+    Forall (fun t => Forall (fun p => account_ok (p_acc p) = true) (t_postings t)) (d_txns d) ->
+    (forall x, In x (v_qty s) -> entry_ok x) ->
+    is_zero (getd (v_qty s') a c) = false -> exists pr, np_price_opt (d_normalized d) c = Some pr.
+  Proof.
+    intros H Hok He.
+    destruct (valuate_day_inv _ _ _ _ _ H) as (ts & s2 & txns' & Eadj & Efold & -> & _).
+    destruct (fold_txns_app _ _ _ _ _ _ Efold) as (s1 & o1 & o2 & E1 & E2 & _).
+    destruct (adj_cell v a c Ha HAL Hcv PT PT PT eps8 (fun _ _ _ _ => I) (fun d q _ _ => merr_bound d q)
+                _ _ _ _ _ Eadj He (fun _ _ _ => I) (cur_ok_PT c _) (cur_ok_PT c _)) as [Fz _].
+    rewrite (fold_txns_zero v ts s1 Fz) in E2. injection E2 as <- _.
+    assert (H0 : hp (mkVal (v_prev s) (d_normalized d) (v_qty s))).
+    { unfold hp. cbn [v_qty v_cur]. intros Hz. unfold getd, pos_get in Hz.
+      destruct (sm_get (v_qty s) (pos_key a c)) as [[[a2 c2] q2]|] eqn:G; [|discriminate].
+      apply sm_get_some_in in G. pose proof (He _ G) as (K & Ha2 & _). cbn [fst snd] in K, Ha2.
+      apply pos_key_inj in K; [|assumption|assumption]. destruct K as [<- <-].
+      destruct (adj_requires_price _ _ _ _ _ Eadj _ _ _ _ G HAL Hcv Hz) as [_ Hc]. exact Hc. }
+    destruct (fold_txns_hp _ _ _ _ E1 Hok H0) as [H1 Hc1]. unfold hp in H1.
+    cbn [v_qty]. intros Hz. destruct (H1 Hz) as [pr Hpr]. exists pr. rewrite Hc1 in Hpr. exact Hpr.
+  Qed.
+End Held.
